@@ -116,6 +116,7 @@ pub fn replay(path: &str) -> i32 {
     }
     println!("recorded witness: {}", serde_json::to_string(&v["witness"]).unwrap_or_default());
     let mut rep = (p.run)(&ctx);
+    crate::infra::drain_escaped_panics(&ctx.id, &mut rep);
     if p.dbg_part && !ctx.is_dbg() {
         if let Ok(r) = crate::run_dbg_sub(&ctx) {
             rep.merge(r);
